@@ -7,7 +7,9 @@ Import-free.
 
 `ktensor.full` enters as the array the Kruskal tensor denotes (its kernel belongs to
 property C01) and `tensor.mttkrps` as the defining sum of the matricised-tensor-times-
-Khatri-Rao product, one matrix per mode (its kernels belong to property C02).
+Khatri-Rao product, one matrix per mode (its kernels belong to property C02), with the
+weights of a Kruskal operand applied column-wise (`evaluate` hands the model itself to
+`mttkrps`, /repo 05825c3, so the model weights enter the gradients).
 -/
 import PyttbModel.Core.Denote
 namespace Pyttb
@@ -50,6 +52,15 @@ def mttkrpsDef [Add α] [Mul α] [One α] [Zero α] (T : Dense α) (U : List (Ma
     List (Mat α) :=
   (List.range T.shape.length).map (mttkrpDef T U R)
 
+/-- `v * weights` for a result matrix `v` (rows × components) and the weight vector: every
+column is multiplied by the weight of its component. -/
+def scaleCols [Mul α] (M : Mat α) (w : List α) : Mat α := M.map fun row => List.zipWith (· * ·) row w
+
+/-- `T.mttkrps(K)` with a Kruskal operand: the factor matrices give the products, and every
+column of every mode's result carries the weight of its component. -/
+def mttkrpsK [Add α] [Mul α] [One α] [Zero α] (T : Dense α) (K : Ktensor α) : List (Mat α) :=
+  (mttkrpsDef T K.factors K.ncomp).map fun V => scaleCols V K.weights
+
 /-- `Y = handle(data.data, full_model.data)` entry by entry (F order). -/
 def applyHandle (h : Handle α) (xs ms : List α) : List α := List.zipWith h xs ms
 
@@ -72,7 +83,7 @@ def evaluate [Add α] [Mul α] [One α] [Zero α] (K : Ktensor α) (X : Dense α
     let M := K.fullD
     let F := f.map fun f => (applyWeights (applyHandle f X.data M.data) W).sum
     let G := g.map fun g =>
-      mttkrpsDef ⟨K.shape, applyWeights (applyHandle g X.data M.data) W⟩ K.factors K.ncomp
+      mttkrpsK ⟨K.shape, applyWeights (applyHandle g X.data M.data) W⟩ K
     .ok ⟨F, G⟩
 
 /-! ### the sampled estimator -/
